@@ -278,15 +278,14 @@ def gen_lines(g, n):
             stream = bytes([0] * (nbytes * chunks + tail))
         else:
             stream = bytes(r.below(256) for _ in range(nbytes * chunks + tail))
-        op = "randint" if lb % 64 else "randint86"
+        op = "randint"
         add("rand", "%s %s %s %s" % (op, hx(a), hx(b), stream.hex() or "-"))
     for _ in range(3 * w):
         m = r.choice([0, 1, 2, 2**31 - 1, 2**31, 2**32 - 1, 2**61, 2**62 - 1, r.bits(1 + r.below(61))])
         lb = max(1, (2 * m).bit_length())
         nbytes = (lb + 7) // 8
         stream = bytes(r.below(256) for _ in range(nbytes * r.choice([1, 2, 4, 8])))
-        if lb % 64:
-            add("rand", "randminm %s %s" % (hx(m), stream.hex()))
+        add("rand", "randminm %s %s" % (hx(m), stream.hex()))
     # --- Cornacchia
     for _ in range(8 * w):
         p = g.prime("corn.p")
@@ -793,8 +792,10 @@ def run(ctx):
     rp = ubsan_replay(ctx)
     if rp is not None:
         ctx.coverage["ubsan_replay_rand_interval"] = rp
-        if rp["witness"]["ubsan"]:
-            ctx.violation("rand_interval:shift-by-64", "ibz_rand_interval shifts a 64-bit word by 64 when bitlen(b-a) %% 64 == 0 (UBSan: %s)" % rp["witness"]["ubsan"][0][-120:],
+        ctx.obligation("UBSan: width with bit length 64 (former shift-by-64 witness) runs clean",
+                       not rp["witness"]["ubsan"] and rp["witness"]["rc"] == 0, json.dumps(rp["witness"]))
+        if rp["witness"]["ubsan"] or rp["witness"]["rc"] != 0:
+            ctx.violation("rand_interval:shift-by-64", "ibz_rand_interval shifts a 64-bit word by 64 when bitlen(b-a) %% 64 == 0 (UBSan: %s)" % (rp["witness"]["ubsan"] or ["abnormal exit"])[0][-120:],
                           dict(op="randint 0 ffffffffffffffff 0102030405060708", ubsan=rp["witness"]["ubsan"], control=rp["control"]))
         ctx.obligation("UBSan: control width (bitlen % 64 != 0) runs clean", not rp["control"]["ubsan"] and rp["control"]["rc"] == 0, json.dumps(rp["control"]))
         if rp["control"]["ubsan"] or rp["control"]["rc"] != 0:
